@@ -149,37 +149,37 @@ by the intermediate states inside a critical section -/
 structure Core (s : St) : Prop where
   pre      : s.cfgd = false → s.th = [] ∧ s.calls = []
   chain    : Chain.Inv (chainSlot s)
-  nonceLe  : ∀ i c, s.calls[i]? = some c → c.nonce ≤ s.nonce
-  nonceLt  : ∀ i j ci cj, s.calls[i]? = some ci → s.calls[j]? = some cj → i < j → ci.nonce < cj.nonce
-  lastCh   : ∀ l, s.waitCh = some l ↔ l + 1 = s.calls.length
+  nonceLe  : ∀ (i : Nat) (c : Call), s.calls[i]? = some c → c.nonce ≤ s.nonce
+  nonceLt  : ∀ (i j : Nat) (ci cj : Call), s.calls[i]? = some ci → s.calls[j]? = some cj → i < j → ci.nonce < cj.nonce
+  lastCh   : ∀ (l : Nat), s.waitCh = some l ↔ l + 1 = s.calls.length
   resCur   : s.resolved = s.cur.isSome
-  curSome  : ∀ i, s.cur = some i → ∃ c h, s.calls[i]? = some c ∧ c.nonce = s.nonce ∧ c.stored = true ∧
+  curSome  : ∀ (i : Nat), s.cur = some i → ∃ (c : Call) (h : Bool), s.calls[i]? = some c ∧ c.nonce = s.nonce ∧ c.stored = true ∧
                c.fin = true ∧ c.res = some (s.value, h, s.verr) ∧ s.rel = (if h then some i else none) ∧
                (h = true → c.released = false)
   curNone  : s.cur = none → s.rel = none ∧ s.value = 0 ∧ s.verr = 0
   tgtVal   : s.target = if s.tgt ∧ s.verr = 0 then s.value else 0
   tgtErr   : s.targetErr = if s.tgt then s.verr else 0
-  relFin   : ∀ i c, s.calls[i]? = some c → c.released = true → c.fin = true ∧ ∃ v e, c.res = some (v, true, e)
-  storedFin : ∀ i c, s.calls[i]? = some c → c.stored = true → c.fin = true ∧ c.res.isSome
-  noLeak   : ∀ i c v e, s.calls[i]? = some c → c.fin = true → c.res = some (v, true, e) →
+  relFin   : ∀ (i : Nat) (c : Call), s.calls[i]? = some c → c.released = true → c.fin = true ∧ ∃ v e, c.res = some (v, true, e)
+  storedFin : ∀ (i : Nat) (c : Call), s.calls[i]? = some c → c.stored = true → c.fin = true ∧ c.res.isSome
+  noLeak   : ∀ (i : Nat) (c : Call) (v e : Nat), s.calls[i]? = some c → c.fin = true → c.res = some (v, true, e) →
                c.released = false → s.rel = some i
-  finSt    : ∀ i c, s.calls[i]? = some c →
+  finSt    : ∀ (i : Nat) (c : Call), s.calls[i]? = some c →
                (c.fin = true → c.ci.st = .returned ∨ c.ci.st = .closed) ∧ (c.ci.st = .closed → c.fin = true)
-  resSt    : ∀ i c, s.calls[i]? = some c → c.res.isSome → c.ci.st = .returned ∨ c.ci.st = .closed
-  told     : ∀ a k pc f sf t, s.th[a]? = some (.ref k pc true f sf t) → k ≠ .nil → t = s.cur
-  rcFresh  : ∀ i, s.rcancel = some i → ∃ c, s.calls[i]? = some c ∧ c.nonce = s.nonce
+  resSt    : ∀ (i : Nat) (c : Call), s.calls[i]? = some c → c.res.isSome → c.ci.st = .returned ∨ c.ci.st = .closed
+  told     : ∀ (a : Nat) (k : CbKind) (pc : Pc) (f sf : Bool) (t : Option Nat), s.th[a]? = some (.ref k pc true f sf t) → k ≠ .nil → t = s.cur
+  rcFresh  : ∀ (i : Nat), s.rcancel = some i → ∃ (c : Call), s.calls[i]? = some c ∧ c.nonce = s.nonce
   panicF   : s.panic = false
   pendNE   : ∀ b ∈ s.pend, b ≠ []
-  deadC    : ∀ i c, s.calls[i]? = some c → s.dead.contains c.root = true → c.ci.cancelled = true
+  deadC    : ∀ (i : Nat) (c : Call), s.calls[i]? = some c → s.dead.contains c.root = true → c.ci.cancelled = true
 
 /-- the part that ties the current resolver call to the context and the reference count -/
 structure Live (s : St) : Prop where
-  fresh : ∀ i c, s.calls[i]? = some c → c.nonce = s.nonce →
+  fresh : ∀ (i : Nat) (c : Call), s.calls[i]? = some c → c.nonce = s.nonce →
             c.root = s.ctx ∧ s.ctx ≠ 0 ∧ s.rcancel = some i ∧
             (c.ci.cancelled = true → s.dead.contains s.ctx = true) ∧
             (c.fin = false → 0 < liveRefs s) ∧ (c.fin = true → c.res.isSome → s.cur = some i)
   prog  : s.ctx ≠ 0 → 0 < liveRefs s →
-            s.resolved = true ∨ ∃ i c, s.calls[i]? = some c ∧ c.nonce = s.nonce
+            s.resolved = true ∨ ∃ (i : Nat) (c : Call), s.calls[i]? = some c ∧ c.nonce = s.nonce
   kept  : s.resolved = true → (0 < liveRefs s ∨ (s.keep = true ∧ s.verr = 0)) ∧ s.ctx ≠ 0
 
 structure Inv (s : St) : Prop where
@@ -190,7 +190,65 @@ theorem init_inv : Inv ({} : St) := by
   refine ⟨⟨?_, ?_, ?_, ?_, ?_, ?_, ?_, ?_, ?_, ?_, ?_, ?_, ?_, ?_, ?_, ?_, ?_, ?_, ?_, ?_⟩, ⟨?_, ?_, ?_⟩⟩
   all_goals (try (intros; simp_all; done))
   · exact Chain.init_inv
-  · intro l; simp; omega
-  · simp [liveRefs]
+
+
+/-! ## chain: the invariant of `Core/Chain.lean` only looks at `pred`, `st` and `last` -/
+
+theorem chain_congr (a b : Chain.Slot) (h : Chain.Inv a) (hl : b.last = a.last)
+    (hlen : b.insts.length = a.insts.length)
+    (hp : ∀ (j : Nat) (x : Chain.Inst), b.insts[j]? = some x →
+      ∃ y, a.insts[j]? = some y ∧ y.pred = x.pred ∧ y.st = x.st) : Chain.Inv b := by
+  have hcl : ∀ j, Chain.isClosed b j = Chain.isClosed a j := by
+    intro j
+    unfold Chain.isClosed
+    cases hb : b.insts[j]? with
+    | none =>
+      have : a.insts[j]? = none := by
+        rw [List.getElem?_eq_none_iff] at hb ⊢; omega
+      simp [this]
+    | some x =>
+      obtain ⟨y, hy, _, hst⟩ := hp j x hb
+      simp [hy, hst]
+  have hpc : ∀ (x y : Chain.Inst), y.pred = x.pred → Chain.predClosed b x = Chain.predClosed a y := by
+    intro x y hxy
+    unfold Chain.predClosed
+    rw [hxy]; cases x.pred <;> simp [hcl]
+  refine ⟨?_, ?_, ?_, ?_, ?_, ?_, ?_, ?_⟩
+  · intro i x p hx hxp
+    obtain ⟨y, hy, hpr, _⟩ := hp i x hx
+    exact h.predLt i y p hy (hpr ▸ hxp)
+  · intro l hl'; rw [hlen]; exact h.lastLt l (hl ▸ hl')
+  · intro i x hx hs
+    obtain ⟨y, hy, hpr, hst⟩ := hp i x hx
+    rw [hpc x y hpr]; exact h.started i y hy (hst ▸ hs)
+  · intro i x hx hxp j hj
+    obtain ⟨y, hy, hpr, _⟩ := hp i x hx
+    rw [hcl]; exact h.gapNone i y hy (hpr ▸ hxp) j hj
+  · intro i x p hx hxp j hj1 hj2
+    obtain ⟨y, hy, hpr, _⟩ := hp i x hx
+    rw [hcl]; exact h.gapSome i y p hy (hpr ▸ hxp) j hj1 hj2
+  · intro hn j hj; rw [hcl]; exact h.topNone (hl ▸ hn) j (hlen ▸ hj)
+  · intro l hl' j hj1 hj2; rw [hcl]; exact h.topSome l (hl ▸ hl') j hj1 (hlen ▸ hj2)
+  · intro i hi j hj; rw [hcl] at hi ⊢; exact h.down i hi j hj
+
+theorem chainSlot_get (s : St) (j : Nat) :
+    (chainSlot s).insts[j]? = (s.calls[j]?).map (·.ci) := by
+  simp [chainSlot]
+
+/-- a state whose calls agree with `s` on `pred`/`st` pointwise, same `waitCh` -/
+theorem chain_of_pointwise (s s' : St) (h : Chain.Inv (chainSlot s)) (hw : s'.waitCh = s.waitCh)
+    (hlen : s'.calls.length = s.calls.length)
+    (hp : ∀ (j : Nat) (c' : Call), s'.calls[j]? = some c' →
+      ∃ c, s.calls[j]? = some c ∧ c.ci.pred = c'.ci.pred ∧ c.ci.st = c'.ci.st) :
+    Chain.Inv (chainSlot s') := by
+  refine chain_congr (chainSlot s) (chainSlot s') h hw (by simp [chainSlot, hlen]) ?_
+  intro j x hx
+  rw [chainSlot_get] at hx
+  cases hc : s'.calls[j]? with
+  | none => simp [hc] at hx
+  | some c' =>
+    simp [hc] at hx
+    obtain ⟨c, h1, h2, h3⟩ := hp j c' hc
+    exact ⟨c.ci, by simp [chainSlot_get, h1], by rw [h2, hx], by rw [h3, hx]⟩
 
 end UtilModel.RefCount
